@@ -308,3 +308,23 @@ CHECKS = {
         "note": "Trusted: TLC, the EnumRNG stand-in mirroring numpy's shuffle semantics, the tree builder (public API). Bounded to <=5 data points.",
     },
 }
+
+
+# additions made after the seeded-change rounds (appended to the texts above by gen_manifest.py)
+EXTRA_TEXT = {
+    "C02": "Edit histories on live objects (in-place walks; a pruned subtree grafted into several trees that all stay alive) are judged after every step against TLC's exact vectors - also the trees not edited in that step.",
+    "C03": "Further settings: samples whose likelihoods differ by 900 nats; every forest on 5 points also rebuilt by cutting a clone's subtree out and grafting a fresh one (same shape, or one clone) where it hung.",
+    "C04": "Single reassignments beyond these sizes: for deep forests on 4-5 points TLC (MoveRel.tla) gives the candidate set of a reassignment, the real DataPointSampler._sample_tree is run from every member with all outcomes enumerated, and the block must be invariant.",
+    "C05": "Multi-sample files mix copy numbers, error rates, tumour contents and zero-depth samples (no reads in the first or the middle sample) per row.",
+    "C06": "Walks on data of magnitude 1e5 and histories on a 1000-point grid (FFT path; a fixed sibling history plus random walks) are snapshotted step by step and compared at the end with rebuilds made with cold memo tables.",
+    "C07": "Every forest on 5 points is also rebuilt the way the subtree move builds trees (cut a clone's subtree, graft a fresh one of the same shape or one clone); the recorded entries of chains on nested-clone data with outliers are re-verified at the END of the run.",
+    "C09": "The order each sampler actually hands to its SMC pass (burn-in and particle Gibbs; the SMC classes replaced by a capturing stub) must have the same law.",
+    "C11": "Each worker re-writes the trace at the SAME path for every trace it handles (a long-lived driver): the commands must summarise what the file holds now.",
+    "C12": "Traces holding several different trees, incl. exact 50/50 splits between incompatible clades, go through all commands (counts / weighted / threshold 0.75): they must complete with complete, tree-consistent tables.",
+    "C13": "In the recorded chains every particle of every final swarm must carry the fixed-root density of its tree under the concentration value current at that moment.",
+    "C14": "The real key objects of the two convolution memo tables are built for 2e5 (thorough 4e5) different grids: no two may agree (a collision is then demonstrated on the real cache).",
+    "C17": "Error rates vary per row within a copy-number state.",
+    "C18": "One chain on a 512-point grid is run twice with the first calls of the direct / of the FFT convolution routine slowed down (results untouched).",
+    "C19": "A further sweep uses heavy data points (log-likelihoods around -900 per sample row, 3 samples).",
+    "C20": "Every file the writer creates beside the trace counts as run output (crash points: earlier files complete, the current one cut at any byte, later ones absent); in the real-crash part the checking process has already summarised the older run before the re-write is killed.",
+}
